@@ -21,14 +21,15 @@ ID = "C15"
 TECHNIQUE = ("explicit-state BFS over taxa-axis operation histories on real breeding-value matrix objects in lock-step "
              "with a raw-value-per-taxon reference model (Fractions), plus complete small-scope enumeration of raw input "
              "matrices and of DenseScaledMatrix operation histories")
-RULE = ("L0: one case = one raw matrix over {a,0,b,LARGE,NaN}^(n x t) -> from_numpy; H: one case = one transition "
+RULE = ("L0: one case = one raw matrix over {a,0,b,LARGE,NaN}^(n x t) or {0,e,f,H,H+tiny,NaN}^(n x t) -> from_numpy; H: one case = one transition "
         "(state, operation, arguments) reached by BFS with canonical-state dedup (state = class + all observable arrays), "
-        "operands from a fixed pool, all index/slice/position arguments for the current size, generic axis forms at the "
-        "root; S: one case = one DenseScaledMatrix operation in a BFS over in-place histories; non-trivial = the operation "
+        "operands from a fixed pool, all index/slice/position arguments for the current size, copies, generic axis forms "
+        "and in-place follow-ups on every returned object (source must stay intact) at the root; S: one case = one DenseScaledMatrix operation in a BFS over in-place histories; non-trivial = the operation "
         "changes the raw matrix or the stored representation; distinct by digest of (parent state, event)")
 ASSUME = ["mc/compat.py restores removed numpy names only",
-          "value alphabets are exactly representable (integers / dyadic rationals), so constant columns have an exactly "
-          "zero standard deviation; tolerance 1e-12 x column magnitude for values that went through the scaling",
+          "both value alphabets ({a,0,b,LARGE,NaN} and the tiny one {0,e,f,H,H+tiny,NaN}) are exactly representable, so whether "
+          "a trait is constant is decided exactly; tolerance 256 eps x column magnitude (no absolute floor) for values that "
+          "went through the scaling, a spread below that level may legitimately be seen as constant after a history",
           "operands of a structural operation have the same class and the same optional label arrays as the matrix",
           "summaries of a column with missing values may be NaN-propagating or NaN-skipping (the property does not say)"]
 
